@@ -2,6 +2,7 @@ package c17
 
 import (
 	"fmt"
+	"regexp"
 	"strings"
 
 	"github.com/nyaruka/goflow/excellent/types"
@@ -43,6 +44,9 @@ func (t *tcase) text() string {
 // address and an escaped @@ are text), so the legacy template denotes them literally (@@ = @).
 var bodyTexts = []string{
 	"", "Hi ", " ok", ", ", "@@", "@@x ", " a@b.com ", " @ ", "(", ")", `"`, `\`, " é ü ", " @@(1 + 2) ", "\n", " 100% ", " @@@@ ", "!",
+	// text that would extend a name if it followed one directly: a parenthesised legacy expression
+	// keeps it apart, and the migrated template has to as well
+	"s", "_x", ".y", "2",
 }
 
 var templateExprs = []texpr{
@@ -52,6 +56,7 @@ var templateExprs = []texpr{
 	{Expr: bin("*", ref("contact.age"), num("2"))},
 	{Expr: call("SUM", num("1"), num("2"))},
 	{Expr: call("UPPER", str(`"q""q"`))},
+	{Expr: ref("contact.age")}, // @(contact.age): a bare reference written as a parenthesised expression
 	{Ident: "contact.name"},
 	{Ident: "contact.age"},
 	{Ident: "extra.s"},
@@ -113,6 +118,10 @@ func templateCases() []*tcase {
 	return out
 }
 
+var wrappedRef = regexp.MustCompile(`@\(([\pL]+[\pL\pN_.]*)\)`)
+
+func unwrapRefs(s string) string { return wrappedRef.ReplaceAllString(s, "@$1") }
+
 type problem struct{ key, what string }
 
 func checkTemplate(tc *tcase) *problem {
@@ -154,7 +163,9 @@ func checkTemplate(tc *tcase) *problem {
 			wantValue.WriteString(denotes)
 		}
 	}
-	if migrated != wantText.String() {
+	// a migrated expression may or may not keep its parentheses: @(contact.name) and @contact.name are
+	// the same expression, so both texts are compared with parenthesised bare references unwrapped
+	if unwrapRefs(migrated) != unwrapRefs(wantText.String()) {
 		return &problem{"body:text-changed", fmt.Sprintf("legacy template %q\nmigrated to %q\nexpected    %q (text outside expressions unchanged, each expression migrated as it is alone)", legacy, migrated, wantText.String())}
 	}
 	got, _, err := evaluator.Template(env, engineCtx, migrated, nil)
